@@ -35,11 +35,13 @@ Record state := mkState {
   eof    : bool;                 (* the stream has failed: reads are no-ops *)
   out    : list N;               (* output, most recent byte first *)
   trace  : list N;               (* size of every primitive transfer, most recent first *)
-  reflog : list skey         (* keys of the block-reference / string-index fields that passed through Sync *)
+  reflog : list skey;        (* keys of the block-reference / string-index fields that passed through Sync *)
+  warn   : bool                  (* model-only: an inline string of 2049 bytes or more was written (old versions);
+                                    the reader cannot take it back. Never reset. *)
 }.
 
 Definition empty_state (input : list N) : state :=
-  mkState (PM.empty _) (PM.empty _) (PM.empty _) [] input (N.of_nat (length input)) false [] [] [].
+  mkState (PM.empty _) (PM.empty _) (PM.empty _) [] input (N.of_nat (length input)) false [] [] [] false.
 
 Definition find2 {A} (m : PM.t (PM.t A)) (k : skey) : option A :=
   match PM.find (fst k) m with Some inner => PM.find (snd k) inner | None => None end.
@@ -50,14 +52,14 @@ Definition get_int (st : state) (k : skey) : Z := match find2 (ints st) k with S
 Definition get_blob (st : state) (k : skey) : list N := match find2 (blobs st) k with Some b => b | None => [] end.
 Definition get_size (st : state) (k : skey) : N := match find2 (sizes st) k with Some n => n | None => 0 end.
 Definition set_int (st : state) (k : skey) (z : Z) : state :=
-  mkState (add2 (ints st) k z) (blobs st) (sizes st) (locals st) (inp st) (remaining st) (eof st) (out st) (trace st) (reflog st).
+  mkState (add2 (ints st) k z) (blobs st) (sizes st) (locals st) (inp st) (remaining st) (eof st) (out st) (trace st) (reflog st) (warn st).
 Definition set_blob (st : state) (k : skey) (b : list N) : state :=
-  mkState (ints st) (add2 (blobs st) k b) (sizes st) (locals st) (inp st) (remaining st) (eof st) (out st) (trace st) (reflog st).
+  mkState (ints st) (add2 (blobs st) k b) (sizes st) (locals st) (inp st) (remaining st) (eof st) (out st) (trace st) (reflog st) (warn st).
 Definition set_size (st : state) (k : skey) (n : N) : state :=
-  mkState (ints st) (blobs st) (add2 (sizes st) k n) (locals st) (inp st) (remaining st) (eof st) (out st) (trace st) (reflog st).
+  mkState (ints st) (blobs st) (add2 (sizes st) k n) (locals st) (inp st) (remaining st) (eof st) (out st) (trace st) (reflog st) (warn st).
 
 Definition log_ref (st : state) (k : skey) : state :=
-  mkState (ints st) (blobs st) (sizes st) (locals st) (inp st) (remaining st) (eof st) (out st) (trace st) (k :: reflog st).
+  mkState (ints st) (blobs st) (sizes st) (locals st) (inp st) (remaining st) (eof st) (out st) (trace st) (k :: reflog st) (warn st).
 
 Fixpoint assoc_get (l : list (lvar * Z)) (x : lvar) : Z :=
   match l with [] => 0%Z | (y, v) :: r => if x =? y then v else assoc_get r x end.
@@ -65,7 +67,7 @@ Fixpoint assoc_set (l : list (lvar * Z)) (x : lvar) (v : Z) : list (lvar * Z) :=
   match l with [] => [(x, v)] | (y, w) :: r => if x =? y then (x, v) :: r else (y, w) :: assoc_set r x v end.
 Definition get_local (st : state) (x : lvar) : Z := assoc_get (locals st) x.
 Definition set_local (st : state) (x : lvar) (v : Z) : state :=
-  mkState (ints st) (blobs st) (sizes st) (assoc_set (locals st) x v) (inp st) (remaining st) (eof st) (out st) (trace st) (reflog st).
+  mkState (ints st) (blobs st) (sizes st) (assoc_set (locals st) x v) (inp st) (remaining st) (eof st) (out st) (trace st) (reflog st) (warn st).
 
 (* ---- bytes ---- *)
 Fixpoint le_bytes (w : nat) (z : Z) : list N :=
@@ -82,19 +84,23 @@ Definition prim_signed (p : prim) : bool := match p with PInt s _ => s | _ => fa
 Definition decode (p : prim) (bytes : list N) : Z := wrapZ (prim_width p) (prim_signed p) (of_le_bytes bytes).
 Definition encode (p : prim) (z : Z) : list N := le_bytes (N.to_nat (prim_width p)) z.
 
+Definition set_warn (st : state) (b : bool) : state :=
+  mkState (ints st) (blobs st) (sizes st) (locals st) (inp st) (remaining st) (eof st) (out st) (trace st) (reflog st)
+          (warn st || b).
+
 (* stream primitives: every one of them is one entry of the trace, as in the C++ hook *)
 Definition emit (st : state) (b : list N) : state :=
   mkState (ints st) (blobs st) (sizes st) (locals st) (inp st) (remaining st) (eof st)
-          (rev_append b (out st)) (N.of_nat (length b) :: trace st) (reflog st).
+          (rev_append b (out st)) (N.of_nat (length b) :: trace st) (reflog st) (warn st).
 
 (* read k bytes: the bytes delivered (all k, or the available prefix, or none after a failure) *)
 Definition read (st : state) (k : N) : list N * state :=
-  if eof st then ([], mkState (ints st) (blobs st) (sizes st) (locals st) (inp st) (remaining st) true (out st) (k :: trace st) (reflog st))
+  if eof st then ([], mkState (ints st) (blobs st) (sizes st) (locals st) (inp st) (remaining st) true (out st) (k :: trace st) (reflog st) (warn st))
   else if k <=? remaining st then
     (firstn (N.to_nat k) (inp st),
-     mkState (ints st) (blobs st) (sizes st) (locals st) (skipn (N.to_nat k) (inp st)) (remaining st - k) false (out st) (k :: trace st) (reflog st))
+     mkState (ints st) (blobs st) (sizes st) (locals st) (skipn (N.to_nat k) (inp st)) (remaining st - k) false (out st) (k :: trace st) (reflog st) (warn st))
   else
-    (inp st, mkState (ints st) (blobs st) (sizes st) (locals st) [] 0 true (out st) (k :: trace st) (reflog st)).
+    (inp st, mkState (ints st) (blobs st) (sizes st) (locals st) [] 0 true (out st) (k :: trace st) (reflog st) (warn st)).
 
 (* overwrite the first bytes of [old] (padded with zeros to n) with what was read *)
 Definition overlay (n : nat) (got old : list N) : list N :=
@@ -221,7 +227,8 @@ Section Eval.
     | SSyncPart f idx p n => (let k := key_of st f idx in Ok (sync_int st k p n))
     | SSyncLocal x p =>
       match m with
-      | Wr => Ok (emit st (encode p (get_local st x)))
+      | Wr => (* a C local of the type of p: always in range; made explicit by storing back what was written *)
+              let e := encode p (get_local st x) in Ok (set_local (emit st e) x (decode p e))
       | Rd => let '(got, st1) := read st (prim_width p) in
               if (length got =? 0)%nat then Ok st1
               else Ok (set_local st1 x (decode p (overlay (N.to_nat (prim_width p)) got (encode p (get_local st x)))))
@@ -257,7 +264,8 @@ Section Eval.
             let s0 := get_blob st k in
             let sz := Z.to_N (wrapZ 4 false (Z.of_nat (length s0))) in
             let s1 := firstn (N.to_nat sz) s0 in
-            Ok (emit (emit (set_blob st k s1) (le_bytes 4 (Z.of_N sz))) s1)
+            (* model-only flag: NiStringRef::Read takes at most 2048 bytes back *)
+            Ok (emit (emit (set_warn (set_blob st k s1) (2049 <=? sz)) (le_bytes 4 (Z.of_N sz))) s1)
           | Rd =>
             let '(lb, st1) := read st 4 in
             let sz := Z.to_N (of_le_bytes (overlay 4 lb [])) in
@@ -272,7 +280,7 @@ Section Eval.
         match m with
         | Wr => let s0 := get_blob st k in
                 Ok (mkState (ints st) (blobs st) (sizes st) (locals st) (inp st) (remaining st) (eof st)
-                            (0 :: rev_append s0 (out st)) (N.of_nat (length s0) + 1 :: trace st) (reflog st))
+                            (0 :: rev_append s0 (out st)) (N.of_nat (length s0) + 1 :: trace st) (reflog st) (warn st))
         | Rd =>
           if eof st then Ok st
           else
@@ -280,9 +288,9 @@ Section Eval.
             let n := N.of_nat (length s0) in
             if n <? remaining st then
               Ok (set_blob (mkState (ints st) (blobs st) (sizes st) (locals st) (skipn (S (length s0)) (inp st))
-                                    (remaining st - n - 1) false (out st) (n + 1 :: trace st) (reflog st)) k s0)
+                                    (remaining st - n - 1) false (out st) (n + 1 :: trace st) (reflog st) (warn st)) k s0)
             else
-              Ok (set_blob (mkState (ints st) (blobs st) (sizes st) (locals st) [] 0 true (out st) (n + 1 :: trace st) (reflog st)) k s0)
+              Ok (set_blob (mkState (ints st) (blobs st) (sizes st) (locals st) [] 0 true (out st) (n + 1 :: trace st) (reflog st) (warn st)) k s0)
         end)
     | SRef f idx => (let k := key_of st f idx in Ok (sync_int (log_ref st k) k u32 4))
     | SRefArrHead fsize fkeep frefs fidx idx w =>
@@ -328,7 +336,7 @@ Definition transfers (st : state) : list N := rev_append (trace st) [].
 
 (* a state for writing: same object, fresh output *)
 Definition rewind (st : state) (input : list N) : state :=
-  mkState (ints st) (blobs st) (sizes st) [] input (N.of_nat (length input)) false [] [] [].
+  mkState (ints st) (blobs st) (sizes st) [] input (N.of_nat (length input)) false [] [] [] (warn st).
 
 (* ---- entry points for the extracted oracle: uniquely named, so that other families' extracted
    constants cannot shadow them in the single extracted module ---- *)
@@ -339,9 +347,10 @@ Definition syncir_run := run.
 Definition syncir_fresh (input : list N) : state := empty_state input.
 Definition syncir_rewind := rewind.
 Definition syncir_clear_out (st : state) : state :=
-  mkState (ints st) (blobs st) (sizes st) (locals st) (inp st) (remaining st) (eof st) [] [] [].
+  mkState (ints st) (blobs st) (sizes st) (locals st) (inp st) (remaining st) (eof st) [] [] [] (warn st).
 Definition syncir_output := output.
 Definition syncir_transfers := transfers.
 Definition syncir_consumed (st : state) : bool := (remaining st =? 0) && negb (eof st).
 Definition syncir_eof (st : state) : bool := eof st.
 Definition syncir_nlog (st : state) : N := N.of_nat (length (reflog st)).
+Definition syncir_warn (st : state) : bool := warn st.
